@@ -326,7 +326,31 @@ class CGen(upp.ProblemGen):
                     except KeyError:
                         pass
                 ps[j] = ["traj"] + tr + self.traj_constraints()
+        if self.trajc and self.rng.random() < 0.3:
+            self._plant_interval_shape(ps)
         return ps
+
+    def _plant_interval_shape(self, ps):
+        """a trajectory constraint whose condition stays TRUE over consecutive steps of actions that write its fluents
+        (re-asserting an atom that already holds, making the second disjunct of `a or b` true while the first still holds):
+        at-most-once must count ONE interval, sometime-before/after must not be re-triggered (seeded change C07-1)"""
+        r = self.rng
+        A, B = ["fl", self.FL["b0"]], ["fl", self.FL["b1"]]
+        phi = r.choice([A, ["or", A, B], ["or", A, B], ["and", A, B], ["not", ["and", ["not", A], ["not", B]]]])
+        tc = r.choice([["at-most-once", phi], ["at-most-once", phi], ["sometime-before", phi, ["not", B]],
+                       ["sometime-after", phi, A], ["sometime", ["and", A, B]]])
+        extra = [["action", "ra", [], ["pre"], ["effs", ["eff", "assign", A, ["b", "T"], ["b", "T"], []]]],
+                 ["action", "rb", [], ["pre"], ["effs", ["eff", "assign", B, ["b", "T"], ["b", "T"], []]]]]
+        if r.random() < 0.4:
+            extra.append(["action", "rc", [], ["pre", A], ["effs", ["eff", "assign", A, ["b", "F"], ["b", "T"], []]]])
+        for j, sec in enumerate(ps):
+            if isinstance(sec, list) and sec and sec[0] == "traj":
+                ps[j] = sec + [tc]
+            elif isinstance(sec, list) and sec and sec[0] == "actions":
+                ps[j] = sec[:3] + extra      # keep at most two generated actions: the search depth is small
+            elif isinstance(sec, list) and sec and sec[0] == "init":
+                keep = [i for i in sec[1:] if i[0] not in (A, B)]
+                ps[j] = ["init"] + keep + [[A, ["b", r.choice("FFT")]], [B, ["b", "F"]]]
 
 
 def _forall_var_vanishes(P):
